@@ -133,8 +133,10 @@ def oracleC09Rounds (c : J) : Option String :=
 def oracleC12Rounds (c : J) : Option String :=
   let rs := (c.getArr "rounds").map RoundInfo.ofJ
   let tw := (c.getArr "twinRounds").map RoundInfo.ofJ
-  -- judged when the fault-free twin itself settles
-  if !(quietAt tw (tw.length - 1)) then none else
+  -- judged when the fault-free twin itself settles, and - as for C01 - when no foreign object occupies a desired child's
+  -- name: with such an occupant a hook whose answer depends on what it observes (StatefulSet-like ordering) has several
+  -- resting states, and which one is reached depends on the history, faults included
+  if !(quietAt tw (tw.length - 1)) || c.getBool "foreign" then none else
   orElse (check (rs.all (·.outcome != "panic")) "a sync panicked") fun _ =>
   orElse (check (c.getBool "finalEqualsTwin") "after the fault the cluster did not converge to the state of the fault-free run") fun _ =>
   check (quietAt rs (rs.length - 1)) "after the fault the controller did not go quiet"
